@@ -84,6 +84,7 @@ class PrivilegeAction(Enum):
 
 class BaseNetworkDriver:
     # BaseNetworkDriver Mixin vars for typing/linting purposes
+    host: str
     logger: LoggerAdapterT
     auth_secondary: str
     failed_when_contains: List[str]
@@ -483,10 +484,17 @@ class BaseNetworkDriver:
             N/A
 
         """
-        # capture failed_when_contains and host from zeroith multi_response element (there should
-        #  always be at least a zeroith element here!); getting host just lets us keep the mixin
-        #  class a little cleaner without having to deal with sync vs async transport classes from
-        #  a typing perspective
+        if not multi_response:
+            # an empty config string has no lines, so nothing was sent and there is no zeroith
+            #  element to borrow from -- return an empty (and not failed) response
+            response = Response(host=self.host, channel_input=config)
+            response.record_response(result=b"")
+            self._update_response(response=response)
+            return response
+
+        # capture failed_when_contains and host from zeroith multi_response element; getting host
+        #  just lets us keep the mixin class a little cleaner without having to deal with sync vs
+        #  async transport classes from a typing perspective
         failed_when_contains = multi_response[0].failed_when_contains
         host = multi_response[0].host
 
